@@ -79,6 +79,9 @@ structure HostR where
   cbs : List (Nat × Callback) := []
   err : Option PyExc := none
   log : List NestEv := []
+  /-- the clock: `none` = frozen at the op's instant; `some k` = the next reading is `k` ms after it (the harness lets the clock tick per
+  reading during the periodic purge) -/
+  tick : Option Nat := none
 
 section
 variable (lower : String → String) (possible : String → List String) (detach : Bool)
@@ -89,6 +92,12 @@ def insertId (x : Nat) : List Nat → List Nat
   | y :: t => if x ≤ y then x :: y :: t else y :: insertId x t
 
 def sortIds (l : List Nat) : List Nat := l.foldr insertId []
+
+/-- `current_time_millis()` during an op that started at `now0` -/
+def HostR.reading (S : HostR) (now0 : Ms) : Ms :=
+  match S.tick with
+  | some k => now0 + k
+  | none => now0
 
 def HostR.getPending (S : HostR) (bid : Nat) : PendingCh :=
   match S.browsers.find? (fun ib => ib.1 = bid) with
@@ -109,7 +118,10 @@ mutual
 /-- `async_add_listener(browser, questions)` for a new browser `nb`; its purge's rounds and its replay run at `depth` -/
 def createR : Nat → Nat → Ms → Nat → List String → HostR → HostR
   | 0, _, _, _, _, S => S
-  | fuel + 1, depth, now, nb, types, S =>
+  | fuel + 1, depth, now0, nb, types, S =>
+    -- `now = current_time_millis()`: one reading for the purge, its notifications and the replay
+    let now : Ms := S.reading now0
+    let S : HostR := { S with tick := S.tick.map (· + 1) }
     match (if Gen.Cache.add_listener_purges_first then expire (Cache.ops lower) S.cache (Gen.Cache.add_listener_purge_expire_now now)
            else .ok (S.cache, [])) with
     | .error e => { S with err := some e }
@@ -120,7 +132,7 @@ def createR : Nat → Nat → Ms → Nat → List String → HostR → HostR
         else
           let S1 := updateAllR lower possible depth (Gen.Cache.add_listener_purge_updates_now now) (out.2.map (fun r => (r, some r)))
             { S with log := S.log ++ [NestEv.purge depth now out.2] }
-          completeAllR fuel depth now S1
+          completeAllR fuel depth now0 S1
       match S.err with
       | some _ => S
       | none =>
@@ -129,7 +141,7 @@ def createR : Nat → Nat → Ms → Nat → List String → HostR → HostR
         if us.isEmpty then { S with browsers := S.browsers ++ [(nb, b)] }
         else
           let b1 := Browser.updateRecords lower possible S.cache (Gen.Cache.add_listener_replay_now now) b us
-          completeOneR fuel depth now nb { S with browsers := S.browsers ++ [(nb, b1)] }
+          completeOneR fuel depth now0 nb { S with browsers := S.browsers ++ [(nb, b1)] }
 
 /-- deliver one pending change of browser `bid`: the callback, then the handler's plan -/
 def fireR : Nat → Nat → Ms → Nat → HostR → ((String × String) × Change) → HostR × Option PyExc
